@@ -46,6 +46,8 @@ def parseEnc : String → Option (Nat × Bool)
 def unitsOk (w : Nat) (l : List Nat) : Bool := l.all (· < 2 ^ w)
 
 def handle (toks : List String) (impl : Option String) : Option (String × String) :=
+  -- `utf.transcodew`: the same call with wchar_t on the 32-bit side(s) (same model: the code dispatches on the unit SIZE)
+  let toks := match toks with | "utf.transcodew" :: r => "utf.transcode" :: r | _ => toks
   match toks with
   | ["utf.transcode", wi, wo, pol, mark, out0, inp] => do
     let wi ← wi.toNat?; let wo ← wo.toNat?; let pol ← parsePol pol; let mark ← parseMark mark
